@@ -3,7 +3,7 @@
    operator<< (TargetsDescription / LibraryDescription) and read<TargetsDescription> at TOKEN level
    (a token is what tfel::utilities::CxxTokenizer yields: a string literal or anything else),
    MFront::analyseTargetsFile / writeTargetsDescription as operations on a one-file file system. *)
-From Coq Require Import List String Bool Arith.
+From Coq Require Import List String Ascii Bool Arith.
 Import ListNotations.
 Local Open Scope string_scope.
 Local Open Scope list_scope.
@@ -287,6 +287,69 @@ Definition read_registry (ts : list tok) : option registry :=
               end
   end.
 
+(* ------------------------------------------------------------------ string tokens, byte level *)
+(* write(os, v, id) prints an element as "..." with every double quote escaped by a backslash; read<vector<string>>
+   replaces \" by " in what CxxTokenizer::readString returns.  Names (name, prefix, suffix, install_path, target name)
+   are printed and read raw. *)
+Definition bslash : Ascii.ascii := "\"%char.
+Definition dquote : Ascii.ascii := """"%char.
+Definition newline : Ascii.ascii := "010"%char.
+Fixpoint escape (s : string) : string :=
+  match s with
+  | EmptyString => EmptyString
+  | String c r => if Ascii.eqb c dquote then String bslash (String dquote (escape r)) else String c (escape r)
+  end.
+Fixpoint unescape (s : string) : string :=
+  match s with
+  | EmptyString => EmptyString
+  | String c r => match r with
+                  | String d r' => if Ascii.eqb c bslash && Ascii.eqb d dquote then String dquote (unescape r')
+                                   else String c (unescape r)
+                  | EmptyString => String c EmptyString
+                  end
+  end.
+(* the class of strings that the printer supports: no backslash, no line break (vector elements); names: no quote either *)
+Fixpoint printable (s : string) : bool :=
+  match s with
+  | EmptyString => true
+  | String c r => negb (Ascii.eqb c bslash) && negb (Ascii.eqb c newline) && printable r
+  end.
+Fixpoint no_quote (s : string) : bool :=
+  match s with EmptyString => true | String c r => negb (Ascii.eqb c dquote) && no_quote r end.
+Definition printable_name (s : string) : bool := printable s && no_quote s.
+(* CxxTokenizer::parseString after the opening quote: the literal ends at the first quote preceded by an even number of
+   consecutive backslashes ([nb] = number of backslashes just before the current position); result = length of the body *)
+Fixpoint close_at (nb : nat) (s : string) : option nat :=
+  match s with
+  | EmptyString => None
+  | String c r => if Ascii.eqb c dquote && Nat.even nb then Some 0
+                  else option_map S (close_at (if Ascii.eqb c bslash then S nb else 0) r)
+  end.
+Definition printable_lib (l : lib) : bool :=
+  printable_name (lname l) && printable_name (lprefix l) && printable_name (lsuffix l) && printable_name (linstall l)
+  && forallb (forallb printable) (lvecs l).
+Definition printable_registry (t : registry) : bool :=
+  forallb printable_lib (libs t) && forallb printable (headers t)
+  && forallb (fun tg => printable_name (fst tg) && forallb (forallb printable) (snd tg)) (targets t).
+
+(* ------------------------------------------------------------------ the registries that mfront writes *)
+(* a vector as insert_if builds it: no empty string, no duplicate *)
+Fixpoint nodupb (l : list string) : bool := match l with [] => true | x :: r => negb (mem x r) && nodupb r end.
+Definition clean (v : list string) : bool := nodupb v && negb (mem "" v).
+Definition starts_with (x : string) (v : list string) : bool := match v with y :: _ => y =? x | [] => false end.
+(* a library as getLibrary + mergeLibraryDescription build it: eight clean vectors, the cppflags and the include
+   directories begin with the defaults of the constructor *)
+Definition wf_lib (l : lib) : bool :=
+  match lvecs l with
+  | [v0; v1; v2; v3; v4; v5; v6; v7] =>
+      clean v0 && clean v1 && clean v2 && clean v3 && clean v4 && clean v5 && clean v6 && clean v7
+      && starts_with default_cppflags v1 && starts_with default_include v2
+  | _ => false
+  end.
+Definition wf_target (t : string * list (list string)) : bool := negb (fst t =? "") && Nat.eqb (List.length (snd t)) 4.
+Definition wf_registry (t : registry) : bool :=
+  forallb wf_lib (libs t) && nodupb (map lname (libs t)) && forallb wf_target (targets t) && nodupb (map fst (targets t)).
+
 (* ------------------------------------------------------------------ runs and crashes *)
 (* the file src/targets.lst: absent, or a token list (a file that does not even tokenize is modelled by a token
    list that does not parse) *)
@@ -317,4 +380,63 @@ Definition run (p : policy) (f : file) (td : registry) : outcome :=
 Definition crash_state (p : policy) (old : file) (new : list tok) (k : nat) : file :=
   if atomic p then (if Nat.leb k (List.length new + 1) then old else Some new)
   else match k with O => old | S i => Some (firstn i new) end.
+
+(* ------------------------------------------------------------------ histories *)
+(* successive runs in one directory; a run that stops on an error leaves the file as it is *)
+Fixpoint runs (p : policy) (f : file) (tds : list registry) : file :=
+  match tds with
+  | [] => f
+  | td :: r => match run p f td with Error => runs p f r | Done f' _ => runs p f' r end
+  end.
+(* the descriptions of the runs that succeeded *)
+Fixpoint accepted (p : policy) (f : file) (tds : list registry) : list registry :=
+  match tds with
+  | [] => []
+  | td :: r => match run p f td with Error => accepted p f r | Done f' _ => td :: accepted p f' r end
+  end.
+
+(* ------------------------------------------------------------------ two concurrent runs, temporary-file protocol *)
+(* MFront::exe of the repaired code: analyseTargetsFile (lock, read, unlock); treatFile + merge; writeTargetsDescription
+   (lock; open "targets.lst.tmp-<pid>" truncating; write; close; rename over "targets.lst"; unlock).
+   Elementary steps of one process: read+merge | open the temporary file | write one token | rename.
+   [shared] = true models the first version of the repair (one fixed temporary name for every process). *)
+Inductive pc := PStart | PRead (m : registry) | PWriting (m : registry) (n : nat) | PDone (m : registry) | PFailed.
+Record cstate := mkC { cmain : file; ctmp0 : file; ctmp1 : file; pc0 : pc; pc1 : pc }.
+Definition get_pc (who : bool) (s : cstate) : pc := if who then pc1 s else pc0 s.
+Definition set_pc (who : bool) (c : pc) (s : cstate) : cstate :=
+  if who then mkC (cmain s) (ctmp0 s) (ctmp1 s) (pc0 s) c else mkC (cmain s) (ctmp0 s) (ctmp1 s) c (pc1 s).
+Definition get_tmp (slot : bool) (s : cstate) : file := if slot then ctmp1 s else ctmp0 s.
+Definition set_tmp (slot : bool) (f : file) (s : cstate) : cstate :=
+  if slot then mkC (cmain s) (ctmp0 s) f (pc0 s) (pc1 s) else mkC (cmain s) f (ctmp1 s) (pc0 s) (pc1 s).
+Definition set_main (f : file) (s : cstate) : cstate := mkC f (ctmp0 s) (ctmp1 s) (pc0 s) (pc1 s).
+Definition compute (p : policy) (f : file) (td : registry) : option registry :=
+  match run p f td with Error => None | Done _ t => Some t end.
+Definition cstep (p : policy) (shared : bool) (td0 td1 : registry) (who : bool) (s : cstate) : cstate :=
+  let slot := if shared then false else who in
+  match get_pc who s with
+  | PStart => match compute p (cmain s) (if who then td1 else td0) with
+              | Some m => set_pc who (PRead m) s
+              | None => set_pc who PFailed s
+              end
+  | PRead m => set_pc who (PWriting m 0) (set_tmp slot (Some []) s)
+  | PWriting m n =>
+      match nth_error (print_registry m) n with
+      | Some tk => set_pc who (PWriting m (S n))
+                          (set_tmp slot (Some (match get_tmp slot s with Some c => c ++ [tk] | None => [tk] end)) s)
+      | None => set_pc who (PDone m) (set_tmp slot None (set_main (get_tmp slot s) s))   (* rename *)
+      end
+  | PDone _ | PFailed => s
+  end.
+Definition cexec (p : policy) (shared : bool) (td0 td1 : registry) (sched : list bool) (s : cstate) : cstate :=
+  fold_left (fun st who => cstep p shared td0 td1 who st) sched s.
+Definition cinit (f : file) : cstate := mkC f None None PStart PStart.
+(* under the lock a whole section (the read, or open..rename) runs without interleaving: the schedule lists sections *)
+Definition csection (p : policy) (shared : bool) (td0 td1 : registry) (who : bool) (s : cstate) : cstate :=
+  match get_pc who s with
+  | PStart => cstep p shared td0 td1 who s
+  | PRead m => Nat.iter (List.length (print_registry m) + 2) (cstep p shared td0 td1 who) s
+  | _ => s
+  end.
+Definition cexec_locked (p : policy) (shared : bool) (td0 td1 : registry) (sched : list bool) (s : cstate) : cstate :=
+  fold_left (fun st who => csection p shared td0 td1 who st) sched s.
 End WithConfig.
